@@ -30,7 +30,8 @@ CONSTANTS Threads,      \* API goroutines
           MaxFs,        \* number of file system operations
           MaxQ,         \* fs.inotify.max_queued_events
           FIX_ERR,      \* D1 repaired: EINVAL from the MOVE_SELF clean-up is not an error, errors are sent without the lock
-          FIX_RACE      \* D6 repaired: Add/Remove look at `done` again once they hold the lock
+          FIX_RACE,     \* D6 repaired: Add/Remove look at `done` again once they hold the lock
+          FIX_RDCLOSED  \* D15 repaired: so does the reader in handleEvent, before it touches the descriptor
 
 VARIABLES kq, kmark, nfs, ovfd,          \* kernel: queue of records [k, w], watch descriptor of the mark on the file (0: none), operations done, overflow marker queued
           gen,                           \* the next watch descriptor the kernel hands out
@@ -107,7 +108,9 @@ RdLock == /\ rd.pc = "lock" /\ mu = "free"
 RdHandle ==
   /\ rd.pc = "handle" /\ mu = "rd"
   /\ LET c == rd.cur IN
-     CASE c.k = "ovf" ->          \* wd -1: no watch
+     CASE FIX_RDCLOSED /\ done -> \* Close() was called since the record was read: give up (deferred Unlock)
+            /\ rd' = [rd EXCEPT !.pc = "exit", !.out = "none"] /\ mu' = "free" /\ UNCHANGED <<tab, kmark, kq>>
+       [] c.k = "ovf" ->          \* wd -1: no watch
             /\ rd' = [rd EXCEPT !.pc = "decode", !.out = "none"] /\ mu' = "free" /\ UNCHANGED <<tab, kmark, kq>>
        [] tab = 0 \/ tab # c.w -> \* watch == nil: the record's descriptor is not (or no longer) in the tables: skip (#616)
             /\ rd' = [rd EXCEPT !.pc = "decode", !.out = "none"] /\ mu' = "free" /\ UNCHANGED <<tab, kmark, kq>>
@@ -221,9 +224,9 @@ CloseProtocol == /\ closeRet => (evClosed /\ errClosed /\ rd.pc = "gone")
                  /\ evClosed => rd.pc = "gone"
 \* C06/C07: results of calls are those of some sequential order - no result of a syscall on the closed descriptor
 ResultsOK == \A t \in Threads : th[t].res \notin {"EBADF"}
-\* C10: Errors carries only genuine failures.  (EBADF from a syscall that raced with Close and was sent because
-\* select{} picked the Errors case although done was closed is tolerated: the watcher is being closed.)
-ErrsGenuine == \A i \in 1..Len(errs) : errs[i] \in {"overflow", "EBADF"}
+\* C10: Errors carries only genuine failures - in particular not the EBADF of a syscall the reader made on the descriptor
+\* that Close had closed meanwhile (D15; when select{} picks the Errors case although done is closed, somebody receives it)
+ErrsGenuine == \A i \in 1..Len(errs) : errs[i] \in {"overflow"}
 \* C13: Close releases the descriptor, the kernel watches and the goroutine
 Released == closeRet => (~fdOpen /\ kmark = 0 /\ rd.pc = "gone")
 \* the mutex is never left locked by someone who is gone
